@@ -137,11 +137,17 @@ def ext_case(r):
         return ["timer 0 1", "jit 1 0", f"setpool 1 {rp['hex']}", "stir 1", "pool 1"]
     if rp["kind"] == "lfsr":
         return [f"timer 0 {rp['time']},{rp['time']}", "jit 1 0", f"setpool 1 {rp['hex']}", "stats 1 0", "pool 1"]
+    g = rp.get("gen", g)          # block cores (Hc128Core, IsaacCore …) are replayed through their generator type
     nat = "u32" if common.GENS.get(g, {}).get("w") == 32 else "u64"
+    tail = rp.get("ops") or ["ser 0", f"{nat} 0", "ser 0"]
     if rp["kind"] == "seed":
-        return [f"new 0 {g} seed {rp['hex']}", "ser 0", f"{nat} 0", "ser 0"]
+        return [f"new 0 {g} seed {rp['hex']}"] + tail
     if rp["kind"] == "u64":
-        return [f"new 0 {g} u64 {rp['hex']}", "ser 0", f"{nat} 0", "ser 0"]
+        return [f"new 0 {g} u64 {rp['hex']}"] + tail
+    if rp["kind"] == "image":     # a whole serde image (results buffer, index, core state) found by z3 for a block function
+        return [f"de 0 {g} {rp['hex']}"] + tail
+    if rp["kind"] == "source":    # bytes of a scripted source: from_rng / try_from_rng (= init on a chosen array)
+        return [f"src 1 {rp['hex']}", f"new 0 {g} {rp.get('how', 'rng')} 1"] + tail
     op = {"next_u32": "u32 0", "next_u64": "u64 0", "jump": "jump 0", "long_jump": "ljump 0"}.get(fn)
     if fn.startswith("fill_bytes"):
         op = f"fill 0 {fn.split(':')[1]}"
